@@ -326,10 +326,10 @@ Proof.
     + rewrite seen_do_load. destruct (Nat.eqb_spec u t) as [->|], (Nat.eqb_spec l0 l) as [->|]; cbn [andb]; lia.
     + cbn. lia.
     + cbn. apply clk_fupd_mono. apply read_clock_mono.
-  - destruct Sh as (-> & _ & _). unfold do_wbeg, ft_write. cbn. apply grows_refl.
-  - destruct Sh as (-> & _ & _). apply grows_refl.
-  - destruct Sh as (-> & _ & _). unfold do_rbeg, ft_read. cbn. apply grows_refl.
-  - destruct Sh as (-> & _ & _). apply grows_refl.
+  - destruct Sh as (-> & _ & _). unfold do_wbeg, ft_write. repeat split; cbn; intros; try lia; apply vle_refl.
+  - destruct Sh as (-> & _ & _). repeat split; cbn; intros; try lia; apply vle_refl.
+  - destruct Sh as (-> & _ & _). unfold do_rbeg, ft_read. repeat split; cbn; intros; try lia; apply vle_refl.
+  - destruct Sh as (-> & _ & _). repeat split; cbn; intros; try lia; apply vle_refl.
 Qed.
 
 Lemma step_sys P (s : sysT) tc :
@@ -457,3 +457,582 @@ Qed.
 Lemma load_depends_on_own_line P t c l g g2 :
   hs g2 l = hs g l -> clk g2 t = clk g t -> seen g2 t l = seen g t l -> load_val P t c l g2 = load_val P t c l g.
 Proof. intros H1 H2 H3. unfold load_val, load_idx. rewrite H1, H2, H3. reflexivity. Qed.
+
+(* ---------- indexed lines: out-of-range index ---------- *)
+Lemma index_range_trigger P t c g lc s i r :
+  at_ lc = Idle -> prog lc = MkTrigI s i :: r -> trg lc s = None -> (nidx P <= i)%nat ->
+  tstep P t c g lc = Some (g, Loc r Idle (trg lc) (det lc), [inv_ev (MkTrigI s i); E K_CATCH 0 0]).
+Proof.
+  intros Hpc Hpr Hs Hi. unfold tstep. rewrite Hpc, Hpr. unfold dispatch. rewrite Hs.
+  assert ((i <? nidx P)%nat = false) as -> by (apply Nat.ltb_ge; exact Hi). reflexivity.
+Qed.
+Lemma index_range_detector P t c g lc s i r :
+  at_ lc = Idle -> prog lc = MkDetI s i :: r -> det lc s = None -> (nidx P <= i)%nat ->
+  tstep P t c g lc = Some (g, Loc r Idle (trg lc) (det lc), [inv_ev (MkDetI s i); E K_CATCH 0 0]).
+Proof.
+  intros Hpc Hpr Hs Hi. unfold tstep. rewrite Hpc, Hpr. unfold dispatch. rewrite Hs.
+  assert ((i <? nidx P)%nat = false) as -> by (apply Nat.ltb_ge; exact Hi). reflexivity.
+Qed.
+Lemma index_in_range_trigger P t c g lc s i r :
+  at_ lc = Idle -> prog lc = MkTrigI s i :: r -> trg lc s = None -> (i < nidx P)%nat ->
+  tstep P t c g lc = Some (g, Loc r Idle (fupd (trg lc) s (Some (Some (line_idx i)))) (det lc), [inv_ev (MkTrigI s i); ret 0]).
+Proof.
+  intros Hpc Hpr Hs Hi. unfold tstep. rewrite Hpc, Hpr. unfold dispatch. rewrite Hs.
+  assert ((i <? nidx P)%nat = true) as -> by (apply Nat.ltb_lt; exact Hi). reflexivity.
+Qed.
+
+(* ---------- moves ---------- *)
+Definition moved (T T' : nat -> option (option nat)) (s d : nat) (x : option nat) : Prop :=
+  T' s = Some None /\ T' d = Some x /\ forall k, k <> s -> k <> d -> T' k = T k.
+
+Lemma moved_fupd T s d x : s <> d -> moved T (fupd (fupd T d (Some x)) s (Some None)) s d x.
+Proof.
+  intros Hne. repeat split.
+  - apply fupd_eq.
+  - rewrite fupd_ne by auto. apply fupd_eq.
+  - intros k H1 H2. rewrite !fupd_ne by auto. reflexivity.
+Qed.
+
+Lemma move_ctor P t c g lc s d r x :
+  at_ lc = Idle -> prog lc = MoveCtor s d :: r -> trg lc s = Some x -> trg lc d = None -> s <> d ->
+  exists T', tstep P t c g lc = Some (g, Loc r Idle T' (det lc), [inv_ev (MoveCtor s d); ret 0]) /\
+             moved (trg lc) T' s d x.
+Proof.
+  intros Hpc Hpr Hs Hd Hne. unfold tstep. rewrite Hpc, Hpr. unfold dispatch. rewrite Hs, Hd.
+  assert ((s =? d)%nat = false) as -> by (apply Nat.eqb_neq; exact Hne).
+  eexists. split; [reflexivity|]. apply moved_fupd. exact Hne.
+Qed.
+
+(* the old line y of the target is dropped: no store, no duty left anywhere for it *)
+Lemma move_assign P t c g lc s d r x y :
+  at_ lc = Idle -> prog lc = MoveAssign s d :: r -> trg lc s = Some x -> trg lc d = Some y -> s <> d ->
+  exists T', tstep P t c g lc = Some (g, Loc r Idle T' (det lc), [inv_ev (MoveAssign s d); ret 0]) /\
+             moved (trg lc) T' s d x.
+Proof.
+  intros Hpc Hpr Hs Hd Hne. unfold tstep. rewrite Hpc, Hpr. unfold dispatch. rewrite Hs, Hd.
+  assert ((s =? d)%nat = false) as -> by (apply Nat.eqb_neq; exact Hne).
+  eexists. split; [reflexivity|]. apply moved_fupd. exact Hne.
+Qed.
+
+(* destroying a moved-from trigger: nothing happens, in particular no fault (repaired code) *)
+Lemma moved_from_destroy P t c g lc s r :
+  unfixed P = false -> at_ lc = Idle -> prog lc = Destroy s :: r -> trg lc s = Some None ->
+  tstep P t c g lc = Some (g, Loc r Idle (fupd (trg lc) s None) (det lc), [inv_ev (Destroy s); ret 0]).
+Proof.
+  intros Hu Hpc Hpr Hs. unfold tstep. rewrite Hpc, Hpr. unfold dispatch. rewrite Hs, Hu. reflexivity.
+Qed.
+(* ... and the pre-repair destructor faults there *)
+Lemma moved_from_destroy_unfixed P t c g lc s r :
+  unfixed P = true -> at_ lc = Idle -> prog lc = Destroy s :: r -> trg lc s = Some None ->
+  exists lc' es, tstep P t c g lc = Some (set_null g, lc', es) /\ In (fault_ev 0 1) es.
+Proof.
+  intros Hu Hpc Hpr Hs. unfold tstep. rewrite Hpc, Hpr. unfold dispatch. rewrite Hs, Hu.
+  eexists _, _. split; [reflexivity|]. cbn. auto.
+Qed.
+
+(* destroying the target trips the moved line: the invoke step leads to the store step, whose
+   only behaviour is to append a true message to that line *)
+Lemma attached_destroy P t c g lc s r l :
+  at_ lc = Idle -> prog lc = Destroy s :: r -> trg lc s = Some (Some l) ->
+  tstep P t c g lc = Some (bump_destroyed g l, Loc r (P_store l) (fupd (trg lc) s None) (det lc), [inv_ev (Destroy s)]).
+Proof. intros Hpc Hpr Hs. unfold tstep. rewrite Hpc, Hpr. unfold dispatch. rewrite Hs. reflexivity. Qed.
+Lemma store_step P t c g lc l :
+  at_ lc = P_store l ->
+  tstep P t c g lc = Some (do_store P t l g, goto lc Idle, [EA K_STORE (lobj l) 1 (mo_code (st_mo P)); ret 0]) /\
+  hs (do_store P t l g) l <> [].
+Proof.
+  intros Hpc. unfold tstep. rewrite Hpc. split; [reflexivity|]. rewrite hs_do_store, Nat.eqb_refl. discriminate.
+Qed.
+
+(* ====================================================================== *)
+(* Publication (Views semantics, any release store / acquire load)          *)
+(* ====================================================================== *)
+
+(* the line an operation attaches a new trigger to (syntactic; an out-of-range index or
+   line number attaches nothing, which only makes the discipline below stricter) *)
+Definition trig_line (P : params) (o : op) : option nat :=
+  match o with
+  | MkTrigE _ l => Some (line_exp P l) | MkTrigD _ => Some line_decl | MkTrigI _ i => Some (line_idx i)
+  | _ => None
+  end.
+(* the detector table after an operation: exactly what [dispatch] does to it *)
+Definition det_after (P : params) (Dt : nat -> option nat) (o : op) : nat -> option nat :=
+  match o with
+  | MkDetE s l => match Dt s with None => if (l <? nexp P)%nat then fupd Dt s (Some (line_exp P l)) else Dt | Some _ => Dt end
+  | MkDetD s => match Dt s with None => fupd Dt s (Some line_decl) | Some _ => Dt end
+  | MkDetI s i => match Dt s with None => if (i <? nidx P)%nat then fupd Dt s (Some (line_idx i)) else Dt | Some _ => Dt end
+  | _ => Dt
+  end.
+
+Lemma dispatch_det P g lc o r g' lc' es :
+  dispatch P g lc o r = (g', lc', es) -> det lc' = det_after P (det lc) o.
+Proof. intros H. unfold det_after. disp_cases H; cbn; try reflexivity; rewrite ?Heqo0, ?Heqb; reflexivity. Qed.
+
+Lemma dispatch_trg P g lc o r g' lc' es s l :
+  dispatch P g lc o r = (g', lc', es) -> trg lc' s = Some (Some l) ->
+  (exists s0, trg lc s0 = Some (Some l)) \/ trig_line P o = Some l.
+Proof.
+  intros H Ht. disp_cases H; cbn in Ht; eauto;
+    unfold fupd in Ht;
+    repeat match type of Ht with
+           | context [Nat.eqb ?a ?b] => destruct (Nat.eqb_spec a b); subst
+           end;
+    try discriminate; eauto;
+    try (inversion Ht; subst; eauto; fail).
+Qed.
+
+Definition pc_origin (lc : loc) (o : op) (p' : pc) : Prop :=
+  match p' with
+  | Idle => True
+  | P_store l => exists s, o = Destroy s /\ trg lc s = Some (Some l)
+  | P_load l None => exists s, o = IsTripped s /\ det lc s = Some l
+  | P_load l (Some d) => exists s, o = PollRead s d /\ det lc s = Some l
+  | P_wbeg d v => o = WriteData d v
+  | P_rbeg d => o = ReadData d
+  | P_wend _ _ | P_rend _ => False
+  end.
+Lemma dispatch_pc P g lc o r g' lc' es :
+  dispatch P g lc o r = (g', lc', es) -> pc_origin lc o (at_ lc').
+Proof. intros H. disp_cases H; cbn; eauto. Qed.
+
+Section Pub.
+  Variable P : params.
+  Variables (p L D : nat).   (* publishing thread, published line, published datum *)
+  Hypothesis Hrel : is_rel (st_mo P) = true.
+  Hypothesis Hacq : is_acq (ld_mo P) = true.
+
+  Definition attaches (o : op) : bool :=
+    match trig_line P o with Some l => Nat.eqb l L | None => false end.
+  Definition writesD (o : op) : bool := match o with WriteData d _ => Nat.eqb d D | _ => false end.
+
+  (* the publisher: never writes the datum after its first trigger destruction *)
+  Definition nowr (pr : list op) : bool := forallb (fun o => negb (writesD o)) pr.
+  Fixpoint pub_ok (pr : list op) : bool :=
+    match pr with
+    | [] => true
+    | Destroy _ :: r => nowr r
+    | _ :: r => pub_ok r
+    end.
+  (* every other thread: attaches no trigger to L, and touches D only by "read if tripped"
+     through a detector of L ([Dt] = its detector table, followed through the program) *)
+  Definition op_ok (Dt : nat -> option nat) (o : op) : bool :=
+    negb (attaches o) &&
+    match o with
+    | WriteData d _ => negb (Nat.eqb d D)
+    | ReadData d => negb (Nat.eqb d D)
+    | PollRead s d => negb (Nat.eqb d D) || match Dt s with Some l => Nat.eqb l L | None => true end
+    | _ => true
+    end.
+  Fixpoint reader_ok (Dt : nat -> option nat) (pr : list op) : bool :=
+    match pr with
+    | [] => true
+    | o :: r => op_ok Dt o && reader_ok (det_after P Dt o) r
+    end.
+  Definition wf_pub (progs : list (list op)) : bool :=
+    pub_ok (nth p progs []) &&
+    forallb (fun t => Nat.eqb t p || reader_ok (fun _ => None) (nth t progs [])) (seq 0 (length progs)).
+
+  Lemma nowr_pub_ok pr : nowr pr = true -> pub_ok pr = true.
+  Proof.
+    induction pr as [|o r IH]; [reflexivity|]. cbn. intros H. apply andb_true_iff in H as [_ H].
+    destruct o; auto.
+  Qed.
+  Lemma pub_ok_tail o r : pub_ok (o :: r) = true -> pub_ok r = true.
+  Proof. destruct o; cbn; auto using nowr_pub_ok. Qed.
+
+  Definition is_wr (q : pc) : bool :=
+    match q with P_wbeg d _ | P_wend d _ => Nat.eqb d D | _ => false end.
+  Definition maywrite (lc : loc) : Prop := nowr (prog lc) = false \/ is_wr (at_ lc) = true.
+  Definition pc_ok (q : pc) : Prop :=
+    match q with
+    | P_store l => l <> L
+    | P_load l (Some d) => d = D -> l = L
+    | P_wbeg d _ | P_wend d _ => d <> D
+    | _ => True
+    end.
+
+  Definition fD (g : glob) : ft := cft (cells g D).
+
+  Record PInv (g : glob) (ls : list loc) : Prop := {
+    Q_race  : grace g D = false;
+    Q_who   : fwhen (fD g) = 0%nat \/ fwho (fD g) = p;
+    Q_when  : (fwhen (fD g) <= clk g p p)%nat;
+    Q_msgs  : forall m, In m (hs g L) -> exists v, mrel m = Some v /\ (fwhen (fD g) <= v p)%nat;
+    Q_rdrs  : hs g L = [] -> forall u, u <> p -> fR (fD g) u = 0%nat;
+    Q_rdp   : (fR (fD g) p <= clk g p p)%nat;
+    Q_obs   : forall t, t <> p -> pcof ls t = P_rbeg D -> hs g L <> [] /\ (fwhen (fD g) <= clk g t p)%nat;
+    Q_pre   : maywrite (locof ls p) -> hs g L = [] /\ pcof ls p <> P_store L;
+    Q_pub   : pub_ok (prog (locof ls p)) = true;
+    Q_rd    : forall t, t <> p -> reader_ok (det (locof ls t)) (prog (locof ls t)) = true /\
+                               (forall s, trg (locof ls t) s <> Some (Some L)) /\ pc_ok (pcof ls t);
+    Q_dirty : cdirty (cells g D) = true -> exists v, pcof ls p = P_wend D v
+  }.
+
+  Lemma wf_pub_spec progs : wf_pub progs = true ->
+    pub_ok (nth p progs []) = true /\ forall t, t <> p -> reader_ok (fun _ => None) (nth t progs []) = true.
+  Proof.
+    unfold wf_pub. intros H. apply andb_true_iff in H as [H1 H2]. split; [exact H1|].
+    intros t Ht. destruct (lt_dec t (length progs)) as [Hlt|Hge].
+    - rewrite forallb_forall in H2. specialize (H2 t). rewrite in_seq in H2.
+      assert ((t =? p)%nat = false) as E by (apply Nat.eqb_neq; exact Ht). rewrite E in H2. apply H2. lia.
+    - rewrite nth_overflow by lia. reflexivity.
+  Qed.
+
+  Lemma PInv_init progs : wf_pub progs = true -> PInv (gl (init progs)) (thr (init progs)).
+  Proof.
+    intros Hwf. destruct (wf_pub_spec _ Hwf) as [Hp Hr].
+    constructor; cbn; unfold fD; cbn; auto; try lia; try contradiction.
+    - unfold vzero. lia.
+    - intros t _ E. unfold pcof in E. rewrite locof_init in E. discriminate.
+    - intros _. split; [reflexivity|]. unfold pcof. rewrite locof_init. discriminate.
+    - rewrite locof_init. exact Hp.
+    - intros t Ht. unfold pcof. rewrite locof_init. cbn. repeat split; auto. discriminate.
+  Qed.
+
+  Lemma disp_same g g' lc' : disp_glob P g g' lc' ->
+    hs g' = hs g /\ clk g' = clk g /\ cells g' = cells g /\ grace g' = grace g.
+  Proof. intros H. destruct H; repeat split; reflexivity. Qed.
+
+  Lemma nowr_cons_false o r : nowr r = false -> nowr (o :: r) = false.
+  Proof. unfold nowr. intros H. cbn [forallb]. rewrite H. apply andb_false_r. Qed.
+
+  Ltac thread_split u t Hlu Hpu :=
+    rewrite ?Hlu, ?Hpu; destruct (Nat.eqb_spec u t) as [->|?].
+
+  Lemma PInv_step_invoke g ls t lc o r g' lc' es :
+    PInv g ls -> nth_error ls t = Some lc -> at_ lc = Idle -> prog lc = o :: r ->
+    dispatch P g lc o r = (g', lc', es) -> PInv g' (upd ls t lc').
+  Proof.
+    intros HI Hl Hpc Hpr Hd.
+    assert (Hlu : forall u, locof (upd ls t lc') u = if Nat.eqb u t then lc' else locof ls u)
+      by (intros; apply (locof_upd _ _ _ _ _ Hl)).
+    assert (Hpu : forall u, pcof (upd ls t lc') u = if Nat.eqb u t then at_ lc' else pcof ls u)
+      by (intros u; unfold pcof; rewrite Hlu; destruct (Nat.eqb u t); reflexivity).
+    assert (Hlt : locof ls t = lc) by (apply locof_at; exact Hl).
+    assert (Hpt : pcof ls t = Idle) by (unfold pcof; rewrite Hlt; exact Hpc).
+    destruct HI as [Qrace Qwho Qwhen Qmsgs Qrdrs Qrdp Qobs Qpre Qpub Qrd Qdirty].
+    destruct (disp_same _ _ _ (dispatch_glob _ _ _ _ _ _ _ _ Hd)) as (E1 & E2 & E3 & E4).
+    pose proof (dispatch_prog _ _ _ _ _ _ _ _ Hd) as Hprog.
+    pose proof (dispatch_det _ _ _ _ _ _ _ _ Hd) as Hdet.
+    pose proof (dispatch_pc _ _ _ _ _ _ _ _ Hd) as Hpco.
+    constructor; unfold fD in *; rewrite ?E1, ?E2, ?E3, ?E4; auto.
+    - (* Q_obs *)
+      intros u Hu. rewrite Hpu. destruct (Nat.eqb_spec u t) as [->|Hne]; [|apply Qobs; exact Hu].
+      intros E. rewrite E in Hpco. cbn in Hpco. subst o.
+      destruct (Qrd t Hu) as (Hro & _ & _). rewrite Hlt, Hpr in Hro. cbn in Hro.
+      rewrite Nat.eqb_refl in Hro. cbn in Hro. discriminate.
+    - (* Q_pre *)
+      rewrite Hlu, Hpu. destruct (Nat.eqb_spec p t) as [->|Hne]; [|exact Qpre].
+      rewrite Hlt in Qpre, Qpub. rewrite Hpr in Qpub.
+      intros [Hm|Hm].
+      + rewrite Hprog in Hm. split.
+        * apply Qpre. left. rewrite Hpr. apply nowr_cons_false. exact Hm.
+        * intros E. rewrite E in Hpco. cbn in Hpco. destruct Hpco as (s & -> & _). cbn in Qpub. congruence.
+      + destruct (at_ lc') eqn:Ea; cbn in Hm; try discriminate; cbn in Hpco; [|contradiction].
+        subst o. split; [|discriminate].
+        apply Qpre. left. rewrite Hpr. cbn. rewrite Hm. reflexivity.
+    - (* Q_pub *)
+      rewrite Hlu. destruct (Nat.eqb_spec p t) as [->|Hne]; [|exact Qpub].
+      rewrite Hprog. rewrite Hlt, Hpr in Qpub. eapply pub_ok_tail; eauto.
+    - (* Q_rd *)
+      intros u Hu. rewrite Hlu, Hpu. destruct (Nat.eqb_spec u t) as [->|Hne]; [|apply Qrd; exact Hu].
+      destruct (Qrd t Hu) as (Hro & Htr & _). rewrite Hlt in Hro, Htr. rewrite Hpr in Hro. cbn in Hro.
+      apply andb_true_iff in Hro as [Hop Hro]. unfold op_ok in Hop. apply andb_true_iff in Hop as [Hna Hop].
+      split; [rewrite Hdet, Hprog; exact Hro|]. split.
+      + intros s E. destruct (dispatch_trg _ _ _ _ _ _ _ _ _ _ Hd E) as [[s0 E0]|E0]; [eapply Htr; eauto|].
+        unfold attaches in Hna. rewrite E0, Nat.eqb_refl in Hna. discriminate.
+      + destruct (at_ lc') as [|l|l [d|]|d v|d v|d|d] eqn:Ea; cbn in Hpco |- *; auto.
+        * destruct Hpco as (s & -> & E). intros ->. eapply Htr; eauto.
+        * destruct Hpco as (s & -> & E). intros ->. rewrite Nat.eqb_refl, E in Hop. cbn in Hop.
+          apply Nat.eqb_eq. exact Hop.
+        * subst o. intros ->. rewrite Nat.eqb_refl in Hop. discriminate.
+    - (* Q_dirty *)
+      intros Hd'. destruct (Qdirty Hd') as [v Hv]. rewrite Hpu.
+      destruct (Nat.eqb_spec p t) as [->|Hne]; [rewrite Hpt in Hv; discriminate|eauto].
+  Qed.
+
+  (* steps inside an operation keep program and slot tables: lc' = goto lc q *)
+  Lemma goto_pub ls t lc q : nth_error ls t = Some lc ->
+    pub_ok (prog (locof ls p)) = true -> pub_ok (prog (locof (upd ls t (goto lc q)) p)) = true.
+  Proof.
+    intros Hl H. rewrite (locof_upd _ _ _ _ _ Hl). destruct (Nat.eqb_spec p t) as [->|]; [|exact H].
+    rewrite (locof_at _ _ _ Hl) in H. exact H.
+  Qed.
+  Lemma goto_rd ls t lc q : nth_error ls t = Some lc -> (t <> p -> pc_ok q) ->
+    (forall u, u <> p -> reader_ok (det (locof ls u)) (prog (locof ls u)) = true /\
+                         (forall s, trg (locof ls u) s <> Some (Some L)) /\ pc_ok (pcof ls u)) ->
+    forall u, u <> p -> reader_ok (det (locof (upd ls t (goto lc q)) u)) (prog (locof (upd ls t (goto lc q)) u)) = true /\
+                        (forall s, trg (locof (upd ls t (goto lc q)) u) s <> Some (Some L)) /\
+                        pc_ok (pcof (upd ls t (goto lc q)) u).
+  Proof.
+    intros Hl Hq H u Hu. unfold pcof. rewrite (locof_upd _ _ _ _ _ Hl).
+    destruct (Nat.eqb_spec u t) as [->|]; [|apply H; exact Hu].
+    destruct (H t Hu) as (A & B & _). rewrite (locof_at _ _ _ Hl) in A, B. cbn. auto.
+  Qed.
+  Lemma goto_dirty ls t lc q (c : Prop) : nth_error ls t = Some lc ->
+    (t = p -> c -> exists v, q = P_wend D v) ->
+    (c -> t <> p -> exists v, pcof ls p = P_wend D v) ->
+    c -> exists v, pcof (upd ls t (goto lc q)) p = P_wend D v.
+  Proof.
+    intros Hl H1 H2 Hc. unfold pcof. rewrite (locof_upd _ _ _ _ _ Hl).
+    destruct (Nat.eqb_spec p t) as [->|Hne]; [cbn; apply H1; auto|apply H2; auto].
+  Qed.
+
+  Lemma PInv_step_store g ls t lc l :
+    PInv g ls -> nth_error ls t = Some lc -> at_ lc = P_store l ->
+    PInv (do_store P t l g) (upd ls t (goto lc Idle)).
+  Proof.
+    intros HI Hl Hpc.
+    assert (Hlu : forall u, locof (upd ls t (goto lc Idle)) u = if Nat.eqb u t then goto lc Idle else locof ls u)
+      by (intros; apply (locof_upd _ _ _ _ _ Hl)).
+    assert (Hpu : forall u, pcof (upd ls t (goto lc Idle)) u = if Nat.eqb u t then Idle else pcof ls u)
+      by (intros u; unfold pcof; rewrite Hlu; destruct (Nat.eqb u t); reflexivity).
+    assert (Hlt : locof ls t = lc) by (apply locof_at; exact Hl).
+    assert (Hpt : pcof ls t = P_store l) by (unfold pcof; rewrite Hlt; exact Hpc).
+    destruct HI as [Qrace Qwho Qwhen Qmsgs Qrdrs Qrdp Qobs Qpre Qpub Qrd Qdirty].
+    assert (HlL : t <> p -> l <> L).
+    { intros Hne. destruct (Qrd t Hne) as (_ & _ & Hk). rewrite Hpt in Hk. exact Hk. }
+    assert (Hck : forall u, vle (clk g u) (clk (do_store P t l g) u)).
+    { intros u. cbn. apply clk_fupd_mono. apply vle_inc. }
+    constructor; unfold fD in *; cbn [do_store cells grace]; auto.
+    - specialize (Hck p p). lia.
+    - intros m Hin. rewrite hs_do_store in Hin. destruct (Nat.eqb_spec L l) as [<-|Hne]; [|apply Qmsgs; exact Hin].
+      destruct Hin as [<-|Hin]; [|apply Qmsgs; exact Hin].
+      destruct (Nat.eq_dec t p) as [->|Hne]; [|exfalso; apply (HlL Hne); reflexivity].
+      unfold store_msg. cbn. rewrite Hrel. eexists. split; [reflexivity|exact Qwhen].
+    - intros Hnil. rewrite hs_do_store in Hnil. destruct (Nat.eqb_spec L l); [discriminate|apply Qrdrs; exact Hnil].
+    - specialize (Hck p p). lia.
+    - intros u Hu. rewrite Hpu. destruct (Nat.eqb_spec u t) as [->|Hne]; [discriminate|].
+      intros E. destruct (Qobs u Hu E) as [Hn Hle]. split.
+      + rewrite hs_do_store. destruct (Nat.eqb L l); [discriminate|exact Hn].
+      + specialize (Hck u p). lia.
+    - rewrite Hlu, Hpu. destruct (Nat.eqb_spec p t) as [->|Hne].
+      + rewrite Hlt, Hpt in Qpre. intros [Hm|Hm]; [|discriminate]. cbn in Hm.
+        destruct (Qpre (or_introl Hm)) as [Hnil Hns]. split; [|discriminate].
+        rewrite hs_do_store. destruct (Nat.eqb_spec L l) as [<-|]; [congruence|exact Hnil].
+      + intros Hm. destruct (Qpre Hm) as [Hnil Hns]. split; [|exact Hns].
+        rewrite hs_do_store. destruct (Nat.eqb_spec L l) as [<-|]; [|exact Hnil].
+        exfalso. apply (HlL (not_eq_sym Hne)). reflexivity.
+    - apply goto_pub; auto.
+    - apply goto_rd; cbn; auto.
+    - intros Hd. apply (goto_dirty ls t lc Idle (cdirty (cells g D) = true) Hl); auto.
+      intros -> Hd'. destruct (Qdirty Hd') as [v Hv]. rewrite Hpt in Hv. discriminate.
+  Qed.
+
+  Definition after_load (k : option nat) (v : Z) : pc :=
+    match k with None => Idle | Some d => if v =? 0 then Idle else P_rbeg d end.
+
+  Lemma PInv_step_load g ls t c lc l k :
+    Inv0 P g ls -> PInv g ls -> nth_error ls t = Some lc -> at_ lc = P_load l k ->
+    PInv (do_load P t c l g) (upd ls t (goto lc (after_load k (load_val P t c l g)))).
+  Proof.
+    intros H0 HI Hl Hpc. set (q := after_load k (load_val P t c l g)).
+    assert (Hlu : forall u, locof (upd ls t (goto lc q)) u = if Nat.eqb u t then goto lc q else locof ls u)
+      by (intros; apply (locof_upd _ _ _ _ _ Hl)).
+    assert (Hpu : forall u, pcof (upd ls t (goto lc q)) u = if Nat.eqb u t then q else pcof ls u)
+      by (intros u; unfold pcof; rewrite Hlu; destruct (Nat.eqb u t); reflexivity).
+    assert (Hlt : locof ls t = lc) by (apply locof_at; exact Hl).
+    assert (Hpt : pcof ls t = P_load l k) by (unfold pcof; rewrite Hlt; exact Hpc).
+    destruct HI as [Qrace Qwho Qwhen Qmsgs Qrdrs Qrdp Qobs Qpre Qpub Qrd Qdirty].
+    assert (Hck : forall u, vle (clk g u) (clk (do_load P t c l g) u)).
+    { intros u. cbn. apply clk_fupd_mono. apply read_clock_mono. }
+    assert (Hq : (q = Idle \/ exists d, q = P_rbeg d)).
+    { unfold q, after_load. destruct k; [destruct (_ =? 0)|]; eauto. }
+    constructor; unfold fD in *; cbn [do_load cells grace hs]; auto.
+    - specialize (Hck p p). lia.
+    - specialize (Hck p p). lia.
+    - intros u Hu. rewrite Hpu. destruct (Nat.eqb_spec u t) as [->|Hne].
+      + intros E. unfold q, after_load in E. destruct k as [d|]; [|discriminate].
+        destruct (load_val P t c l g =? 0) eqn:Ev; [discriminate|]. inversion E; subst d.
+        destruct (Qrd t Hu) as (_ & _ & Hk). rewrite Hpt in Hk. cbn in Hk. specialize (Hk eq_refl). subst l.
+        destruct (load_val_cases P t c L g (I_oneway _ _ _ H0 L)) as [[_ Hlt']|[Hz _]];
+          [|rewrite Hz in Ev; discriminate].
+        destruct (nth_error (hs g L) (load_idx P t c L g)) as [m|] eqn:En;
+          [|apply nth_error_None in En; lia].
+        destruct (Qmsgs m (nth_error_In _ _ En)) as (v & Hv & Hle).
+        pose proof (read_clock_acq (ld_mo P) _ _ (clk g t) _ _ Hacq En Hv) as Hj.
+        split.
+        * intros E0. rewrite E0 in Hlt'. cbn in Hlt'. lia.
+        * cbn. rewrite fupd_eq. specialize (Hj p). lia.
+      + intros E. destruct (Qobs u Hu E) as [Hn Hle]. split; [exact Hn|]. specialize (Hck u p). lia.
+    - rewrite Hlu, Hpu. destruct (Nat.eqb_spec p t) as [->|Hne]; [|exact Qpre].
+      rewrite Hlt in Qpre. intros Hm.
+      assert (nowr (prog lc) = false) as Hn.
+      { destruct Hm as [Hm|Hm]; [exact Hm|]. cbn in Hm. destruct Hq as [->|[d ->]]; discriminate. }
+      destruct (Qpre (or_introl Hn)) as [Hnil _]. split; [exact Hnil|].
+      destruct Hq as [->|[d ->]]; discriminate.
+    - apply goto_pub; auto.
+    - apply goto_rd; auto. intros _. destruct Hq as [->|[d ->]]; exact I.
+    - intros Hd. apply (goto_dirty ls t lc q (cdirty (cells g D) = true) Hl); auto.
+      intros -> Hd'. destruct (Qdirty Hd') as [v Hv]. rewrite Hpt in Hv. discriminate.
+  Qed.
+
+  (* ---- the four window steps, as functions on the cell table ---- *)
+  Lemma wbeg_cells t d g d' : cells (fst (do_wbeg P t d g)) d' =
+    if Nat.eqb d' d then Cell (cval (cells g d)) (crd (cells g d)) true (Ft t (clk g t t) vzero) else cells g d'.
+  Proof. unfold do_wbeg, ft_write. cbn. unfold fupd. destruct (Nat.eqb d' d); reflexivity. Qed.
+  Lemma wbeg_grace t d g d' : grace (fst (do_wbeg P t d g)) d' =
+    if Nat.eqb d' d then grace g d || negb (snd (ft_write (nthr P) t (clk g t) (cft (cells g d)))) else grace g d'.
+  Proof. unfold do_wbeg, ft_write. cbn. unfold fupd. destruct (Nat.eqb d' d); reflexivity. Qed.
+  Lemma wbeg_rest t d g : hs (fst (do_wbeg P t d g)) = hs g /\ clk (fst (do_wbeg P t d g)) = clk g.
+  Proof. unfold do_wbeg, ft_write. cbn. auto. Qed.
+
+  Lemma wend_cells d v g d' : cells (do_wend d v g) d' =
+    if Nat.eqb d' d then Cell v (crd (cells g d)) false (cft (cells g d)) else cells g d'.
+  Proof. unfold do_wend. cbn. unfold fupd. destruct (Nat.eqb d' d); reflexivity. Qed.
+  Lemma wend_grace d v g d' : grace (do_wend d v g) d' = grace g d'.
+  Proof.
+    unfold do_wend. cbn. unfold fupd. destruct (Nat.eqb_spec d' d) as [->|]; [apply orb_false_r|reflexivity].
+  Qed.
+
+  Lemma rbeg_cells t d g d' : cells (fst (do_rbeg t d g)) d' =
+    if Nat.eqb d' d
+    then Cell (cval (cells g d)) (S (crd (cells g d))) (cdirty (cells g d))
+              (Ft (fwho (cft (cells g d))) (fwhen (cft (cells g d))) (fupd (fR (cft (cells g d))) t (clk g t t)))
+    else cells g d'.
+  Proof. unfold do_rbeg, ft_read. cbn. unfold fupd at 1. destruct (Nat.eqb d' d); reflexivity. Qed.
+  Lemma rbeg_grace t d g d' : grace (fst (do_rbeg t d g)) d' =
+    if Nat.eqb d' d then grace g d || negb (snd (ft_read t (clk g t) (cft (cells g d)))) else grace g d'.
+  Proof. unfold do_rbeg, ft_read. cbn. unfold fupd at 1. destruct (Nat.eqb d' d); reflexivity. Qed.
+  Lemma rbeg_rest t d g : hs (fst (do_rbeg t d g)) = hs g /\ clk (fst (do_rbeg t d g)) = clk g.
+  Proof. unfold do_rbeg, ft_read. cbn. auto. Qed.
+
+  Lemma rend_cells d g d' : cells (fst (do_rend d g)) d' =
+    if Nat.eqb d' d then Cell (cval (cells g d)) (pred (crd (cells g d))) (cdirty (cells g d)) (cft (cells g d)) else cells g d'.
+  Proof. unfold do_rend. cbn. unfold fupd. destruct (Nat.eqb d' d); reflexivity. Qed.
+  Lemma rend_grace d g d' : grace (fst (do_rend d g)) d' = grace g d'.
+  Proof.
+    unfold do_rend. cbn. unfold fupd. destruct (Nat.eqb_spec d' d) as [->|]; [apply orb_false_r|reflexivity].
+  Qed.
+
+  (* a step that leaves the epochs of datum D alone *)
+  Lemma PInv_step_cell g g' ls t lc q :
+    PInv g ls -> nth_error ls t = Some lc ->
+    hs g' = hs g -> clk g' = clk g -> cft (cells g' D) = cft (cells g D) -> grace g' D = grace g D ->
+    (cdirty (cells g' D) = true -> cdirty (cells g D) = true) ->
+    (forall v0, at_ lc = P_wend D v0 -> cdirty (cells g' D) = true -> exists v, q = P_wend D v) ->
+    q <> P_rbeg D -> q <> P_store L -> (t <> p -> pc_ok q) -> (is_wr q = true -> is_wr (at_ lc) = true) ->
+    PInv g' (upd ls t (goto lc q)).
+  Proof.
+    intros HI Hl E1 E2 E3 E4 Hd1 Hd2 Hq1 Hq2 Hq3 Hq4.
+    assert (Hlu : forall u, locof (upd ls t (goto lc q)) u = if Nat.eqb u t then goto lc q else locof ls u)
+      by (intros; apply (locof_upd _ _ _ _ _ Hl)).
+    assert (Hpu : forall u, pcof (upd ls t (goto lc q)) u = if Nat.eqb u t then q else pcof ls u)
+      by (intros u; unfold pcof; rewrite Hlu; destruct (Nat.eqb u t); reflexivity).
+    assert (Hlt : locof ls t = lc) by (apply locof_at; exact Hl).
+    assert (Hpt : pcof ls t = at_ lc) by (unfold pcof; rewrite Hlt; reflexivity).
+    destruct HI as [Qrace Qwho Qwhen Qmsgs Qrdrs Qrdp Qobs Qpre Qpub Qrd Qdirty].
+    constructor; unfold fD in *; rewrite ?E1, ?E2, ?E3, ?E4; auto.
+    - intros u Hu. rewrite Hpu. destruct (Nat.eqb_spec u t) as [->|Hne]; [intros E; contradiction|apply Qobs; exact Hu].
+    - rewrite Hlu, Hpu. destruct (Nat.eqb_spec p t) as [->|Hne]; [|exact Qpre].
+      rewrite Hlt, Hpt in Qpre. intros Hm. split; [|exact Hq2]. apply Qpre.
+      destruct Hm as [Hm|Hm]; [left; exact Hm|right; apply Hq4; exact Hm].
+    - apply goto_pub; auto.
+    - apply goto_rd; auto.
+    - intros Hd. apply (goto_dirty ls t lc q (cdirty (cells g' D) = true) Hl); auto.
+      intros -> Hd'. destruct (Qdirty (Hd1 Hd')) as [v Hv]. rewrite Hpt in Hv. eapply Hd2; eauto.
+  Qed.
+
+  Lemma eqb_D_false d : d <> D -> Nat.eqb D d = false.
+  Proof. intros H. apply Nat.eqb_neq. auto. Qed.
+
+  Lemma PInv_step_wend g ls t lc d v :
+    PInv g ls -> nth_error ls t = Some lc -> at_ lc = P_wend d v -> PInv (do_wend d v g) (upd ls t (goto lc Idle)).
+  Proof.
+    intros HI Hl Hpc. apply (PInv_step_cell g); auto; try discriminate.
+    - rewrite wend_cells. destruct (Nat.eqb_spec D d) as [->|]; reflexivity.
+    - apply wend_grace.
+    - rewrite wend_cells. destruct (Nat.eqb_spec D d) as [->|]; [discriminate|auto].
+    - intros v0 E. rewrite Hpc in E. inversion E; subst. rewrite wend_cells, Nat.eqb_refl. discriminate.
+    - intros _. exact I.
+  Qed.
+
+  Lemma PInv_step_rend g ls t lc d :
+    PInv g ls -> nth_error ls t = Some lc -> at_ lc = P_rend d -> PInv (fst (do_rend d g)) (upd ls t (goto lc Idle)).
+  Proof.
+    intros HI Hl Hpc. apply (PInv_step_cell g); auto; try discriminate.
+    - rewrite rend_cells. destruct (Nat.eqb_spec D d) as [->|]; reflexivity.
+    - apply rend_grace.
+    - rewrite rend_cells. destruct (Nat.eqb_spec D d) as [->|]; auto.
+    - intros v0 E. rewrite Hpc in E. discriminate.
+    - intros _. exact I.
+  Qed.
+
+  Lemma PInv_step_wbeg g ls t lc d v :
+    PInv g ls -> nth_error ls t = Some lc -> at_ lc = P_wbeg d v ->
+    PInv (fst (do_wbeg P t d g)) (upd ls t (goto lc (P_wend d v))).
+  Proof.
+    intros HI Hl Hpc. destruct (wbeg_rest t d g) as [E1 E2].
+    assert (Hlt : locof ls t = lc) by (apply locof_at; exact Hl).
+    assert (Hpt : pcof ls t = P_wbeg d v) by (unfold pcof; rewrite Hlt; exact Hpc).
+    destruct (Nat.eq_dec d D) as [->|HdD].
+    - (* the publisher opens a write window on D *)
+      assert (Hlu : forall u, locof (upd ls t (goto lc (P_wend D v))) u = if Nat.eqb u t then goto lc (P_wend D v) else locof ls u)
+        by (intros; apply (locof_upd _ _ _ _ _ Hl)).
+      assert (Hpu : forall u, pcof (upd ls t (goto lc (P_wend D v))) u = if Nat.eqb u t then P_wend D v else pcof ls u)
+        by (intros u; unfold pcof; rewrite Hlu; destruct (Nat.eqb u t); reflexivity).
+      destruct HI as [Qrace Qwho Qwhen Qmsgs Qrdrs Qrdp Qobs Qpre Qpub Qrd Qdirty].
+      assert (t = p) as ->.
+      { destruct (Nat.eq_dec t p) as [E|Hne]; [exact E|exfalso].
+        destruct (Qrd t Hne) as (_ & _ & Hk). rewrite Hpt in Hk. apply Hk. reflexivity. }
+      rewrite Hlt, Hpt in Qpre.
+      destruct Qpre as [Hnil _]; [right; rewrite Hpc; cbn; apply Nat.eqb_refl|].
+      constructor; unfold fD in *; rewrite ?E1, ?E2, ?wbeg_cells, ?wbeg_grace, ?Nat.eqb_refl; cbn [cft fwho fwhen fR cdirty].
+      + rewrite Qrace. cbn [orb]. apply negb_false_iff. apply ft_write_ok.
+        * destruct Qwho as [E|E]; [rewrite E; lia|rewrite E; exact Qwhen].
+        * intros u _. destruct (Nat.eq_dec u p) as [->|Hne]; [exact Qrdp|rewrite (Qrdrs Hnil u Hne); lia].
+      + right. reflexivity.
+      + lia.
+      + rewrite Hnil. intros m [].
+      + intros _ u _. reflexivity.
+      + unfold vzero. lia.
+      + intros u Hu. rewrite Hpu. destruct (Nat.eqb_spec u p) as [->|Hne]; [contradiction|].
+        intros E. destruct (Qobs u Hu E) as [Hn _]. contradiction.
+      + intros _. split; [exact Hnil|]. rewrite Hpu, Nat.eqb_refl. discriminate.
+      + apply goto_pub; auto.
+      + apply goto_rd; auto. intros Hne. contradiction.
+      + intros _. exists v. rewrite Hpu, Nat.eqb_refl. reflexivity.
+    - apply (PInv_step_cell g); auto; try discriminate.
+      + rewrite wbeg_cells, (eqb_D_false _ HdD). reflexivity.
+      + rewrite wbeg_grace, (eqb_D_false _ HdD). reflexivity.
+      + rewrite wbeg_cells, (eqb_D_false _ HdD). auto.
+      + intros v0 E. rewrite Hpc in E. discriminate.
+      + rewrite Hpc. cbn. auto.
+  Qed.
+
+  Lemma PInv_step_rbeg g ls t lc d :
+    PInv g ls -> nth_error ls t = Some lc -> at_ lc = P_rbeg d ->
+    PInv (fst (do_rbeg t d g)) (upd ls t (goto lc (P_rend d))).
+  Proof.
+    intros HI Hl Hpc. destruct (rbeg_rest t d g) as [E1 E2].
+    assert (Hlt : locof ls t = lc) by (apply locof_at; exact Hl).
+    assert (Hpt : pcof ls t = P_rbeg d) by (unfold pcof; rewrite Hlt; exact Hpc).
+    destruct (Nat.eq_dec d D) as [->|HdD].
+    - assert (Hlu : forall u, locof (upd ls t (goto lc (P_rend D))) u = if Nat.eqb u t then goto lc (P_rend D) else locof ls u)
+        by (intros; apply (locof_upd _ _ _ _ _ Hl)).
+      assert (Hpu : forall u, pcof (upd ls t (goto lc (P_rend D))) u = if Nat.eqb u t then P_rend D else pcof ls u)
+        by (intros u; unfold pcof; rewrite Hlu; destruct (Nat.eqb u t); reflexivity).
+      destruct HI as [Qrace Qwho Qwhen Qmsgs Qrdrs Qrdp Qobs Qpre Qpub Qrd Qdirty].
+      constructor; unfold fD in *; rewrite ?E1, ?E2, ?rbeg_cells, ?rbeg_grace, ?Nat.eqb_refl; cbn [cft fwho fwhen fR cdirty]; auto.
+      + rewrite Qrace. cbn [orb]. apply negb_false_iff. apply ft_read_ok.
+        destruct Qwho as [E|E]; [rewrite E; lia|rewrite E].
+        destruct (Nat.eq_dec t p) as [->|Hne]; [exact Qwhen|]. apply (Qobs t Hne Hpt).
+      + intros Hnil u Hu. unfold fupd. destruct (Nat.eqb_spec u t) as [->|Hne]; [|apply Qrdrs; auto].
+        destruct (Qobs t Hu Hpt) as [Hn _]. contradiction.
+      + unfold fupd. destruct (Nat.eqb_spec p t) as [->|Hne]; [lia|exact Qrdp].
+      + intros u Hu. rewrite Hpu. destruct (Nat.eqb_spec u t) as [->|Hne]; [discriminate|apply Qobs; exact Hu].
+      + rewrite Hlu, Hpu. destruct (Nat.eqb_spec p t) as [->|Hne]; [|exact Qpre].
+        rewrite Hlt, Hpt in Qpre. intros [Hm|Hm]; [|discriminate]. cbn in Hm.
+        destruct (Qpre (or_introl Hm)) as [Hnil _]. split; [exact Hnil|discriminate].
+      + apply goto_pub; auto.
+      + apply goto_rd; auto. intros _. exact I.
+      + intros Hd. apply (goto_dirty ls t lc (P_rend D) (cdirty (cells g D) = true) Hl); auto.
+        intros -> Hd'. destruct (Qdirty Hd') as [v Hv]. rewrite Hpt in Hv. discriminate.
+    - apply (PInv_step_cell g); auto; try discriminate.
+      + rewrite rbeg_cells, (eqb_D_false _ HdD). reflexivity.
+      + rewrite rbeg_grace, (eqb_D_false _ HdD). reflexivity.
+      + rewrite rbeg_cells, (eqb_D_false _ HdD). auto.
+      + intros v0 E. rewrite Hpc in E. discriminate.
+      + intros _. exact I.
+  Qed.
+End Pub.
